@@ -69,6 +69,16 @@ def frame_table(ctx, H):
             key = bytes(rnd.getrandbits(8) for _ in range(4))
             fr.masking_key = key
             batch.append(dict(op=op, mask=mask, n=n, payload=payload, fr=fr, key=key))
+        # ... and frames built by the library's own constructors (what handler.send / close use): text with multi-byte characters whose BYTE length
+        # crosses the 125/126 and 65535/65536 boundaries while the character count does not
+        if b0 % (BATCH * 40) == 0:
+            for msg in ("", "héllo wörld", "\u00e9" * 62 + "ab", "\u00e9" * 63, "\u00e9" * 100, "\u2713" * 21845, "\u00e9" * 32768, "\U0001f600" * 16384, "x" * 126):
+                fr = H.WebSocketFrame.Text(msg)
+                data = msg.encode("utf-8")
+                batch.append(dict(op=H.WebSocketOpCode.Text, mask=0, n=len(data), payload=data, fr=fr, key=b"\x00\x00\x00\x00"))
+            for ctor, op in ((H.WebSocketFrame.Binary, H.WebSocketOpCode.Binary), (H.WebSocketFrame.Ping, H.WebSocketOpCode.Ping), (H.WebSocketFrame.Pong, H.WebSocketOpCode.Pong)):
+                data = bytes(rnd.getrandbits(8) for _ in range(rnd.choice([0, 5, 125])))
+                batch.append(dict(op=op, mask=0, n=len(data), payload=data, fr=ctor(data), key=b"\x00\x00\x00\x00"))
         for it in batch:                      # every frame of the batch exists before the first one is written
             try:
                 it["hdr"] = it["fr"].serializeHeader() + it["fr"].serializeDataHeader()
@@ -78,7 +88,7 @@ def frame_table(ctx, H):
         for it in batch:
             if it["hdr"] is None:
                 continue
-            wire_payload = bytes(b ^ it["key"][i % 4] for i, b in enumerate(it["payload"])) if it["mask"] else it["payload"]
+            wire_payload = bytes(b ^ it["key"][i % 4] for i, b in enumerate(it["payload"])) if it["mask"] else bytes(it["fr"].payload)
             buf = H.WebSocketTemporaryRingBuffer(FakeRequest())
             buf._push(it["hdr"] + wire_payload)
             try:
